@@ -243,6 +243,7 @@ class LinkBatch:
         self.res, self.reqs, self.jobs, self.drv = res, [], [], drv
 
     def add(self, sc, full=True):
+        full = sc.get('full', full)
         rr = run_real(sc)
         n = sc['n']
         i0 = len(self.reqs)
@@ -504,6 +505,20 @@ def scenarios(rng, tier):
             m = 6 if quick else 10
             out.append(dict(n=n, freq=freqs_for(n, r), bytes=demo[:m], producer=dict(kind='hold', gaps=[g] * m),
                             consumer=dict(kind='window', k=kp * P, width=w, phase=r.randint(0, kp * P - 1)), seed=n))
+    # (f) LARGE ratios (the theorems are for all n >= 2; real UARTs run at hundreds to thousands of clocks per bit, e.g.
+    #     50 MHz / 115200 = 434): 19n+2 clocks of lock per frame exceed 2^12 from n = 216, 2^16 from n = 3450
+    big = [216, 217] if quick else [216, 217, 1000, 2604, 3500]
+    for n in big:
+        P = 2 * n
+        r = rng.fork(('f', n))
+        m = 2 if (quick or n > 1000) else 3
+        bts = [r.choice([0xA5, 0x53, 0xC3]), 0x00, 0xFF][:m]
+        heavy = n > 1000
+        out.append(dict(n=n, freq=(2 * n * 100, 100) if n != 217 else (50000000, 115200), bytes=bts, producer=dict(kind='hold', gaps=[0] * m),
+                        consumer=dict(kind='always'), seed=n, full=False, model=not (quick and n != 216)))
+        out.append(dict(n=n, freq=(2 * n * 100, 100), bytes=bts, producer=dict(kind='hold', gaps=[r.randint(0, P)] * m),
+                        consumer=dict(kind='window', k=3 * P, width=2, phase=r.randint(0, 3 * P - 1)), seed=n, full=False,
+                        model=not (quick or heavy)))
     # (b) gap patterns x consumer timings that keep up
     nb = 40 if quick else 400
     for j in range(nb):
